@@ -1481,3 +1481,147 @@ Proof.
   - intros r H1 H2. rewrite Hr6. destruct Hrep5 as (Hw5 & _).
     erewrite lv_spec_ext; [|exact Hw5|reflexivity]. apply lv_spec_pointwise. now apply Hfr5.
 Qed.
+
+(* ---------- load_values, share mode: every loaded pointer gains a reference ---------- *)
+Definition rupd (rg : N -> option Z) (t : N) (v : Z) : N -> option Z := fun r => if N.eqb r t then Some v else rg r.
+
+Fixpoint lvs_spec (to_load_rev : list binding) (E : nat) (b : Z) (ff : N) (rg : N -> option Z) (h : aheap)
+  : (N -> option Z) * aheap :=
+  match to_load_rev with
+  | [] => (rg, h)
+  | x :: rest_rev =>
+      let L := (E + List.length rest_rev)%nat in
+      let vS := words h (b + field_offset Snd (ff - 1)) in
+      match bchi x with
+      | Ext => lvs_spec rest_rev E b (ff - 1) (rupd rg (pos_reg Snd L) vS) h
+      | _ => let vF := words h (b + field_offset Fst (ff - 1)) in
+             lvs_spec rest_rev E b (ff - 1) (rupd (rupd rg (pos_reg Snd L) vS) (pos_reg Fst L) vF) (a_share vF 1 h)
+      end
+  end.
+Fixpoint lvs_ok (to_load_rev : list binding) (b : Z) (ff : N) (h : aheap) : Prop :=
+  match to_load_rev with
+  | [] => True
+  | x :: rest_rev =>
+      match bchi x with
+      | Ext => lvs_ok rest_rev b (ff - 1) h
+      | _ => let vF := words h (b + field_offset Fst (ff - 1)) in
+             (vF = 0 \/ valid_addr vF) /\ lvs_ok rest_rev b (ff - 1) (a_share vF 1 h)
+      end
+  end.
+
+Lemma lvs_spec_pointwise : forall l E b ff rg rg' h r,
+  rg r = rg' r -> fst (lvs_spec l E b ff rg h) r = fst (lvs_spec l E b ff rg' h) r.
+Proof.
+  induction l as [|x l IH]; intros E b ff rg rg' h r H; cbn [lvs_spec]; [exact H|].
+  destruct (bchi x); apply IH; unfold rupd; repeat destruct (N.eqb r _); try reflexivity; exact H.
+Qed.
+Lemma lvs_spec_heap_indep : forall l E b ff rg rg' h, snd (lvs_spec l E b ff rg h) = snd (lvs_spec l E b ff rg' h).
+Proof. induction l as [|x l IH]; intros; cbn [lvs_spec]; [reflexivity|]. destruct (bchi x); apply IH. Qed.
+Lemma hp_a_share : forall p n h, hp (a_share p n h) = hp h.
+Proof. intros. unfold a_share. destruct (p =? 0); reflexivity. Qed.
+Lemma fp_a_share : forall p n h, fp (a_share p n h) = fp h.
+Proof. intros. unfold a_share. destruct (p =? 0); reflexivity. Qed.
+
+Theorem rv_load_values_share : forall im to_load_rev existing ff cs lc lc' i s h b,
+  load_values to_load_rev existing (pos_reg Fst (List.length existing)) ff Share lc = Ok (cs, lc') ->
+  (N.of_nat (List.length to_load_rev) <= ff)%N -> (ff <= 3)%N ->
+  placed im i cs ->
+  represents s h ->
+  rget s (pos_reg Fst (List.length existing)) = Some b -> valid_block b ->
+  lvs_ok to_load_rev b ff h ->
+  exists s',
+    star im i s (padd i (List.length cs)) s' /\
+    represents s' (snd (lvs_spec to_load_rev (List.length existing) b ff (rget s) h)) /\
+    (forall r, r <> TEMP -> rget s' r = fst (lvs_spec to_load_rev (List.length existing) b ff (rget s) h) r).
+Proof.
+  intros im to_load_rev. induction to_load_rev as [|x rest_rev IH]; intros existing ff cs lc lc' i s h b Hlv Hlen Hff Hpl Hrep Hblk Hvb Hok.
+  - cbn [load_values] in Hlv. injection Hlv as <- <-. exists s. cbn. repeat split; try apply Hrep; auto. apply star_refl.
+  - cbn [load_values] in Hlv. cbn [List.length] in Hlen.
+    destruct (load_value x (existing ++ rev rest_rev) (pos_reg Fst (List.length existing)) (ff - 1) Share lc) as [[c1 lc1]|] eqn:E1; [|discriminate].
+    cbn [rbind] in Hlv.
+    destruct (load_values rest_rev existing (pos_reg Fst (List.length existing)) (ff - 1) Share lc1) as [[c2 lc2]|] eqn:E2; [|discriminate].
+    cbn [rbind] in Hlv. injection Hlv as <- <-.
+    assert (HL : List.length (existing ++ rev rest_rev) = (List.length existing + List.length rest_rev)%nat)
+      by (rewrite app_length, rev_length; reflexivity).
+    apply placed_app in Hpl as [Hp1 Hp2].
+    assert (Hk : (ff - 1 < 3)%N) by lia.
+    set (E := List.length existing) in *. set (Lp := (E + List.length rest_rev)%nat) in *.
+    pose proof (pos_reg_reserved Snd Lp) as HS4. pose proof (pos_reg_reserved Fst Lp) as HF4.
+    pose proof (pos_reg_reserved Fst E) as HB4.
+    assert (HneSB : pos_reg Snd Lp <> pos_reg Fst E) by (intro Heq; apply pos_reg_inj in Heq as [Heq _]; discriminate).
+    destruct Hrep as (Hw & Hhp & Hfp).
+    (* this value *)
+    assert (H1 : exists s1 h1 rg1,
+                 star im i s (padd i (List.length c1)) s1 /\ represents s1 h1 /\
+                 (forall r, r <> TEMP -> rget s1 r = rg1 r) /\
+                 lvs_spec (x :: rest_rev) E b ff (rget s) h = lvs_spec rest_rev E b (ff - 1) rg1 h1 /\
+                 lvs_ok rest_rev b (ff - 1) h1 /\
+                 (rest_rev <> [] -> rg1 (pos_reg Fst E) = Some b)).
+    { unfold load_value, load_field in E1.
+      destruct (r_fresh Snd (existing ++ rev rest_rev)) as [tS|] eqn:ES; [|discriminate]. cbn [rbind] in E1.
+      apply r_fresh_ok in ES. rewrite HL in ES. subst tS. fold Lp in E1.
+      cbn [lvs_spec lvs_ok] in *. fold Lp.
+      destruct (bchi x) eqn:Echi.
+      3:{ injection E1 as <- <-. destruct Hp1 as [Hc1 _].
+          exists (rset s (pos_reg Snd Lp) (Some (hword s (b + field_offset Snd (ff - 1))))), h,
+                 (rupd (rget s) (pos_reg Snd Lp) (words h (b + field_offset Snd (ff - 1)))).
+          split; [|split; [|split; [|split; [|split]]]].
+          - exec_next Hc1 0%nat step_LW; [exact Hblk | now apply field_fits12 | now apply field_valid |]. apply star_refl.
+          - split; [|split]; [intros; rewrite hword_rset; apply Hw | | ];
+              (rewrite rget_rset_other; [assumption | intro Heq; rewrite Heq in HS4; vm_compute in HS4; congruence]).
+          - intros r _. unfold rupd. rewrite rget_rset_eqb by assumption. now rewrite Hw.
+          - reflexivity.
+          - exact Hok.
+          - intros _. unfold rupd. destruct (N.eqb_spec (pos_reg Fst E) (pos_reg Snd Lp)); [congruence|exact Hblk]. }
+      all: destruct (r_fresh Fst (existing ++ rev rest_rev)) as [tF|] eqn:EF; [|discriminate]; cbn [rbind] in E1;
+           apply r_fresh_ok in EF; rewrite HL in EF; subst tF; fold Lp in E1;
+           destruct (r_share_block_n (pos_reg Fst Lp) 1 lc) as [c3 lc3] eqn:E3; injection E1 as <- <-;
+           destruct Hok as [Hcv Hok'];
+           apply (placed_app im i (cons _ (cons _ nil)) c3) in Hp1 as [[Hc1 _] Hp3]; cbn [List.length app] in Hp3;
+           assert (Hc3 : c3 = fst (r_share_block_n (pos_reg Fst Lp) 1 lc)) by (now rewrite E3); rewrite Hc3 in Hp3;
+           set (s1 := rset (rset s (pos_reg Snd Lp) (Some (hword s (b + field_offset Snd (ff - 1))))) (pos_reg Fst Lp)
+                        (Some (hword (rset s (pos_reg Snd Lp) (Some (hword s (b + field_offset Snd (ff - 1))))) (b + field_offset Fst (ff - 1)))));
+           (assert (Hrep1 : represents s1 h) by
+              (unfold s1; split; [|split]; [intros; rewrite !hword_rset; apply Hw | | ];
+               (rewrite !rget_rset_other; [assumption | intro Heq; rewrite Heq in HS4; vm_compute in HS4; congruence
+                                                      | intro Heq; rewrite Heq in HF4; vm_compute in HF4; congruence])));
+           (assert (HtF : rget s1 (pos_reg Fst Lp) = Some (words h (b + field_offset Fst (ff - 1)))) by
+              (unfold s1; rewrite rget_rset_same by lia; now rewrite hword_rset, Hw));
+           (destruct (rv_share_block_n_refines im (padd i 2) (pos_reg Fst Lp) 1 lc s1 h (words h (b + field_offset Fst (ff - 1))) Hp3)
+              as (s2 & Hs2 & Hrep2 & Hfr2);
+              [ intro Heq; rewrite Heq in HF4; vm_compute in HF4; congruence
+              | intro Heq; rewrite Heq in HF4; vm_compute in HF4; congruence
+              | intro Heq; rewrite Heq in HF4; vm_compute in HF4; congruence
+              | intro Heq; rewrite Heq in HF4; vm_compute in HF4; congruence
+              | exact Hrep1 | exact HtF | exact Hcv | reflexivity | ]);
+           exists s2, (a_share (words h (b + field_offset Fst (ff - 1))) 1 h),
+                  (rupd (rupd (rget s) (pos_reg Snd Lp) (words h (b + field_offset Snd (ff - 1)))) (pos_reg Fst Lp) (words h (b + field_offset Fst (ff - 1))));
+           (split; [|split; [|split; [|split; [|split]]]];
+            [ exec_next Hc1 0%nat step_LW; [exact Hblk | now apply field_fits12 | now apply field_valid |];
+              exec_next Hc1 1%nat step_LW; [rewrite rget_rset_other by exact HneSB; exact Hblk | now apply field_fits12 | now apply field_valid |];
+              cbn [List.length app padd]; rewrite Hc3; exact Hs2
+            | exact Hrep2
+            | intros r Hr; rewrite Hfr2 by exact Hr; unfold s1, rupd; rewrite !rget_rset_eqb by assumption; rewrite hword_rset, !Hw; reflexivity
+            | reflexivity
+            | exact Hok'
+            | intros Hrest; unfold rupd;
+              assert (HLE : Lp <> E) by (unfold Lp; destruct rest_rev; [contradiction|cbn [List.length]; lia]);
+              destruct (N.eqb_spec (pos_reg Fst E) (pos_reg Fst Lp)) as [Heq|_]; [apply pos_reg_inj in Heq as [_ Heq]; congruence|];
+              destruct (N.eqb_spec (pos_reg Fst E) (pos_reg Snd Lp)) as [Heq|_]; [congruence|exact Hblk] ]). }
+    destruct H1 as (s1 & h1 & rg1 & Hs1 & Hrep1 & Hr1 & Hspec & Hok1 & Hb1).
+    rewrite Hspec.
+    destruct rest_rev as [|y rest'].
+    + cbn [load_values] in E2. injection E2 as <- <-. cbn [lvs_spec].
+      exists s1. split; [|split].
+      * rewrite app_nil_r. exact Hs1.
+      * exact Hrep1.
+      * exact Hr1.
+    + assert (Hblk1 : rget s1 (pos_reg Fst E) = Some b).
+      { rewrite Hr1; [apply Hb1; discriminate|]. intro Heq. rewrite Heq in HB4. vm_compute in HB4. congruence. }
+      destruct (IH existing (ff - 1)%N c2 lc1 lc2 (padd i (List.length c1)) s1 h1 b E2 ltac:(cbn [List.length] in *; lia) ltac:(lia) Hp2 Hrep1 Hblk1 Hvb Hok1)
+        as (s2 & Hs2 & Hrep2 & Hr2).
+      exists s2. split; [|split].
+      * rewrite app_length, padd_add. eapply star_trans; eassumption.
+      * rewrite (lvs_spec_heap_indep _ _ _ _ rg1 (rget s1)). exact Hrep2.
+      * intros r Hr. rewrite Hr2 by exact Hr. apply lvs_spec_pointwise. now apply Hr1.
+Qed.
